@@ -491,10 +491,10 @@ def evaluate__ceiling_and_floor_functions(self: XPathFunction, context: ta.Conte
             return arg
 
         assert isinstance(arg, (int, float, decimal.Decimal))
-        if self.symbol == 'floor':
-            return type(arg)(math.floor(arg))
-        else:
-            return type(arg)(math.ceil(arg))
+        result = math.floor(arg) if self.symbol == 'floor' else math.ceil(arg)
+        if isinstance(arg, float):
+            return type(arg)(math.copysign(result, arg))  # keeps negative zero
+        return type(arg)(result)
     except TypeError as err:
         if isinstance(context, XPathSchemaContext):
             return []
